@@ -203,15 +203,6 @@ pub struct Inj {
     pub inc: Vec<usize>,
 }
 
-impl Inj {
-    pub fn clear(&mut self) {
-        self.reg.clear();
-        self.mid.clear();
-        self.exit.clear();
-        self.inc.clear();
-    }
-}
-
 #[derive(Clone, Debug)]
 pub enum Op {
     Push { cid: u32, script: Script, front: bool },
